@@ -230,6 +230,25 @@ theorem insertMountLocked_ok_supers {s s' : State} {b : Bk} {idx : Nat} {path : 
       · cases hi
         simp [upd]
 
+/-- a successful `insert_mount_locked` records the slot, the backend and the mapping in force -/
+theorem insertMountLocked_ok_record {s s' : State} {b : Bk} {idx : Nat} {path : Name}
+    (hi : s.insertMountLocked b idx path = some (s', .ok ())) :
+    ∃ p m, s'.mnts p = some m ∧ m.idx = idx ∧ m.bk = b.id ∧ m.map = s.mountMaps idx := by
+  unfold State.insertMountLocked at hi
+  split at hi
+  · cases hi
+  · split at hi
+    · cases hi
+    · rename_i p' inode hw
+      simp only at hi
+      split at hi
+      · cases hi
+      · cases hi
+      · cases hi
+        rename_i ent _
+        exact ⟨inode, { idx := idx, ino := b.rootIno, rootEntry := ent, path := path, bk := b.id, map := s.mountMaps idx },
+          by simp [upd], rfl, rfl, rfl⟩
+
 theorem inv_of_eq {s t : State} (h : Inv s) (h1 : t.supers = s.supers) (h2 : t.mnts = s.mnts)
     (h3 : t.nextSuper < 256) : Inv t := by
   unfold Inv
@@ -265,12 +284,14 @@ theorem mount_inv {s : State} (h : Inv s) (b : Bk) (path : Name) (map : Option M
 
 /-- the four ways a `mount` can end, as far as the state goes -/
 theorem mount_cases (s : State) (hn : s.nextSuper < 256) (b : Bk) (path : Name) (map : Option Map) :
-    (s.mount b path map).1 = s ∨
-    (∃ next, next < 256 ∧ (s.mount b path map).1 = { s with nextSuper := next }) ∨
+    ((s.mount b path map).1 = s ∧ ∀ i, (s.mount b path map).2.1 ≠ .mounted i) ∨
+    (∃ next, next < 256 ∧ (s.mount b path map).1 = { s with nextSuper := next } ∧
+        ∀ i, (s.mount b path map).2.1 ≠ .mounted i) ∨
     (∃ next idx, next < 256 ∧ idx ≠ 0 ∧ idx < 256 ∧ s.supers idx = none ∧
-        ((s.mount b path map).1 = { s with nextSuper := next, mountMaps := upd s.mountMaps idx map } ∨
+        (((s.mount b path map).1 = { s with nextSuper := next, mountMaps := upd s.mountMaps idx map } ∧
+            ∀ i, (s.mount b path map).2.1 ≠ .mounted i) ∨
          ∃ s3 r, State.insertMountLocked { s with nextSuper := next, mountMaps := upd s.mountMaps idx map } b idx path = some (s3, r) ∧
-           (s.mount b path map).1 = s3 ∧ ((s.mount b path map).2.1 = .mounted idx ↔ r = .ok ()))) := by
+           (s.mount b path map).1 = s3 ∧ (∀ i, (s.mount b path map).2.1 = .mounted i ↔ (r = .ok () ∧ i = idx)))) := by
   have ha := allocate_spec s hn
   obtain ⟨next, r, hal⟩ := allocate_eq s
   rw [hal] at ha
@@ -278,30 +299,35 @@ theorem mount_cases (s : State) (hn : s.nextSuper < 256) (b : Bk) (path : Name) 
   simp only at ha1 ha4
   unfold State.mount
   cases hme : b.mountErr with
-  | some e => exact Or.inl rfl
+  | some e => exact Or.inl ⟨rfl, by intro i; simp⟩
   | none =>
     dsimp only
     by_cases hmax : b.maxIno > VFS_MAX_INO
-    · rw [if_pos hmax]; exact Or.inl rfl
+    · rw [if_pos hmax]; exact Or.inl ⟨rfl, by intro i; simp⟩
     · rw [if_neg hmax]
       by_cases hie : s.initialized = true ∧ b.ie ≠ 0
-      · rw [if_pos hie]; exact Or.inl rfl
+      · rw [if_pos hie]; exact Or.inl ⟨rfl, by intro i; simp⟩
       · rw [if_neg hie, hal]
         cases r with
-        | none => exact Or.inr (Or.inl ⟨next, ha1, rfl⟩)
+        | none => exact Or.inr (Or.inl ⟨next, ha1, rfl, by intro i; simp⟩)
         | some idx =>
           obtain ⟨hne, hlt, hvac⟩ := ha4 idx rfl
           refine Or.inr (Or.inr ⟨next, idx, ha1, hne, hlt, hvac, ?_⟩)
           dsimp only
           generalize hins : State.insertMountLocked _ b idx path = ins
           cases ins with
-          | none => exact Or.inl rfl
+          | none => exact Or.inl ⟨rfl, by intro i; simp⟩
           | some x =>
             obtain ⟨s3, er⟩ := x
-            refine Or.inr ⟨s3, er, rfl, ?_⟩
             cases er with
-            | error n => simp
-            | ok u => simp
+            | error n =>
+              refine Or.inr ⟨s3, .error n, rfl, rfl, ?_⟩
+              intro i; simp
+            | ok u =>
+              refine Or.inr ⟨s3, .ok u, rfl, rfl, ?_⟩
+              intro i
+              simp only [Res.mounted.injEq, true_and]
+              exact ⟨fun h => h.symm, fun h => h.symm⟩
 
 /-- the two ways a `umount` can end, as far as the state goes -/
 theorem umount_cases (s : State) (path : Name) :
